@@ -213,6 +213,25 @@ def o_option_plumbing(ctx):
     ctx.claim('printed-rows-on-the-window-lattice', printed == want, detail='%r: printed %r, expected %r' % (args, printed, want))
 
 
+def o_profile_of_a_second_structure(ctx):
+    """the folding profile, optimum and ranges a molecule reports are computed from ITS groups: after another structure
+    was processed (and its profile asked for) in the same process, a molecule's profile equals what its own
+    conformation's folding energies give on the grid"""
+    from . import micro as M
+    names = ['pep8', 'pair_GLU_ARG_TYR', 'pair_ASP_ARG']
+    first = ctx.choice('first', names)
+    second = ctx.choice('second', names)
+    ref = ctx.choice('reference', ['neutral', 'low-pH'])
+    m1 = M.run(M.text(first))
+    m1.get_folding_profile(conformation='AVR', reference=ref, grid=(0.0, 14.0, 1.0))
+    m2 = M.run(M.text(second))
+    prof, opt, r80, stab = m2.get_folding_profile(conformation='AVR', reference=ref, grid=(0.0, 14.0, 1.0))
+    own = [m2.conformations['AVR'].calculate_folding_energy(ph=float(p), reference=ref) for p in range(15)]
+    ctx.claim('profile-is-the-molecules-own', len(prof) == 15 and all(abs(pt[1] - e) < 1e-9 for pt, e in zip(prof, own)),
+              detail='%s after %s: %r vs %r' % (second, first, [round(pt[1], 3) for pt in prof][:5], [round(e, 3) for e in own][:5]))
+    ctx.claim('optimum-is-the-molecules-own', abs(opt[1] - min(own)) < 1e-9)
+
+
 def mk_grid_fp(K, slo=1, shi=200):
     def body(ctx):
         """make_grid in IEEE double arithmetic: for a decimal grid
@@ -324,6 +343,9 @@ def obligations(tier):
     obs.append(Obligation('O5-option-plumbing', o_option_plumbing, code=['propka/lib.py:build_parser', 'propka/lib.py:loadOptions', 'propka/output.py:get_folding_profile_section', 'propka/run.py:single'],
                           bounds='5 command lines combining -g and -w (grid start off / on the window lattice, window wider or narrower than the grid)', kind='table-check',
                           claim_doc='options.grid and options.window are what was given; the printed rows are the grid points on window_min + i*step'))
+    obs.append(Obligation('O6-profile-of-a-second-structure', o_profile_of_a_second_structure, code=['propka/molecular_container.py:MolecularContainer.get_folding_profile', 'propka/run.py:single'],
+                          bounds='3 x 3 ordered pairs of micro-structures x 2 reference states, the second processed after the first in one process (18 concrete runs)', kind='table-check',
+                          claim_doc='the second molecule\'s profile and optimum are what its own groups give'))
     obs.append(Obligation('O3-grid-exact', o_grid_exact, code=['propka/lib.py:make_grid'], bounds='K in {0,1,4}; min in [-5,20], step in [0.01,5], max = min + (K+f)*step with f in [0,0.99] (exact reals)',
                           claim_doc='K+1 points min + i*step, none beyond max', max_paths=2000))
     # QF_FP queries are discharged by the cvc5 binary (z3 needs minutes per query)
